@@ -16,6 +16,7 @@ The compiler's implicit transaction is an open block whose baseline is `base`
 -/
 import EdbVerif.Lemmas.Tx
 import EdbVerif.Lemmas.TxProto
+import EdbVerif.Lemmas.TxPool
 
 namespace EdbVerif.C09
 open EdbVerif.Tx
@@ -159,11 +160,13 @@ example : let c := (run (ConState.init 100 ⟨1, 2, 3, 4⟩) (exH.take 5)).1
 
 /-! ## Level 2: the protocol
 
-`Server.step .pickle` is one client statement through the server model (`dbview.pyx` +
+`Server.step` is one client statement through the server model (`dbview.pyx` +
 `execute.pyx` + the binary protocol's error handling) and the compiler (`Compiler.compile` /
 `compile_in_tx`, `sync_tx`, the unit's `tx_id / sp_id / sp_name / tx_commit / …` fields),
 with the environment's choices `cf` (the statement's own compilation fails) and `bf` (the
-backend fails) and the pickle transport of the compiler pool.  `PSpec` is the
+backend fails) and the pickle transport of the compiler pool (every call works on a private
+unpickled copy of `_last_comp_state`; the pool's REUSE_LAST_STATE_MARKER shortcut is the subject
+of the last section).  `PSpec` is the
 PostgreSQL-style session; `PSpec.covers` is the envelope:
 
 * the backend may fail on DDL / alias / config statements, queries and COMMIT
@@ -182,37 +185,37 @@ exactly the payload the spec exposes at that point. -/
     global schema, session aliases and config) is the spec's. -/
 theorem protocol_refines (pl : Payload) (h : List SEv)
     (hcov : (PSpec.init pl).coversAll h = true) :
-    let S' := (Server.runAll .pickle (Server.init pl) h).1
+    let S' := (Server.runAll (Server.init pl) h).1
     let p' := ((PSpec.init pl).run h).1
-    agreesAll (Server.runAll .pickle (Server.init pl) h).2 ((PSpec.init pl).run h).2 ∧
+    agreesAll (Server.runAll (Server.init pl) h).2 ((PSpec.init pl).run h).2 ∧
     S'.inTx = p'.inTx ∧ (S'.inTx = true → S'.txErr = p'.failed) ∧
     p'.base = ⟨S'.uschema, S'.gschema, S'.aliases, S'.config⟩ := by
   have := Tx.runAll_refines (Tx.rel_init pl) h hcov
   refine ⟨this.2, ?_⟩
   have hR := this.1
   unfold Rel at hR
-  by_cases hin : (Server.runAll .pickle (Server.init pl) h).1.inTx = true
+  by_cases hin : (Server.runAll (Server.init pl) h).1.inTx = true
   · rw [if_pos hin] at hR
     obtain ⟨c, t, _, hI⟩ := hR
     exact ⟨by rw [hI.sin, hI.pin], fun _ => hI.pfail.symm, hI.base⟩
   · rw [if_neg hin] at hR
     obtain ⟨_, _, hp⟩ := hR
-    have hin' : (Server.runAll .pickle (Server.init pl) h).1.inTx = false := by simpa using hin
+    have hin' : (Server.runAll (Server.init pl) h).1.inTx = false := by simpa using hin
     refine ⟨by rw [hin', hp]; rfl, fun h' => absurd h' hin, by rw [hp]; rfl⟩
 
 /-- One more statement from any state coupled to a spec state (the inductive step; `Rel` is
     the coupling invariant of `Lemmas/TxProto.lean`). -/
 theorem protocol_step (S : Server) (p : PSpec) (hR : Rel S p) (e : SEv) (hcov : p.covers e = true) :
-    Rel (S.step .pickle e).1 (p.step e).1 ∧
-    (S.step .pickle e).2.agrees { cls := (p.step e).2, exposed := p.exposed, healthy := p.healthy } :=
+    Rel (S.step e).1 (p.step e).1 ∧
+    (S.step e).2.agrees { cls := (p.step e).2, exposed := p.exposed, healthy := p.healthy } :=
   Tx.stepOk_all hR e hcov
 
 /-- Pickle transport: when the compiler raises, the server keeps the state it had
     (`_last_comp_state` is only assigned from a successful call's result). -/
 theorem pickle_rejected_keeps_state (S : Server) (e : SEv)
-    (h : (S.step .pickle e).2.unit = none) : (S.step .pickle e).1.last = S.last := by
-  unfold Server.step at h ⊢
-  cases hr : (S.compileFor e).res with
+    (h : (S.step e).2.unit = none) : (S.step e).1.last = S.last := by
+  unfold Server.step Server.stepOn at h ⊢
+  cases hr : (S.compileOn S.last e).res with
   | error err =>
     simp only [hr, Server.compileFailed]
     split <;> rfl
@@ -250,11 +253,11 @@ def cexShadow : List SEv :=
     { stmt := .upd (.schema 7 8) }, { stmt := .release 1 }, { stmt := .rollbackTo 1 }, { stmt := .query } ]
 
 theorem protocol_release_shadowed_counterexample :
-    ((Server.runAll .pickle (Server.init ⟨1, 2, 3, 4⟩) cexShadow).2.getLast?.map
+    ((Server.runAll (Server.init ⟨1, 2, 3, 4⟩) cexShadow).2.getLast?.map
         (fun o => (o.outcome, o.against))) = some (.ok, some ⟨5, 6, 3, 4⟩) ∧
     (((PSpec.init ⟨1, 2, 3, 4⟩).run cexShadow).2.getLast?.map
         (fun o => (o.cls, o.exposed))) = some (.ok, ⟨1, 2, 3, 4⟩) ∧
-    ¬ agreesAll (Server.runAll .pickle (Server.init ⟨1, 2, 3, 4⟩) cexShadow).2
+    ¬ agreesAll (Server.runAll (Server.init ⟨1, 2, 3, 4⟩) cexShadow).2
         ((PSpec.init ⟨1, 2, 3, 4⟩).run cexShadow).2 := by
   decide
 
@@ -264,7 +267,7 @@ def cexRelease : List SEv :=
   [ { stmt := .start }, { stmt := .declare 1 }, { stmt := .release 1, bf := true }, { stmt := .rollbackTo 1 } ]
 
 theorem protocol_release_fault_counterexample :
-    ((Server.runAll .pickle (Server.init ⟨1, 2, 3, 4⟩) cexRelease).2.getLast?.map (·.outcome)) =
+    ((Server.runAll (Server.init ⟨1, 2, 3, 4⟩) cexRelease).2.getLast?.map (·.outcome)) =
       some (.rejected .inTxError) ∧
     (((PSpec.init ⟨1, 2, 3, 4⟩).run cexRelease).2.getLast?.map (·.cls)) = some .ok := by
   decide
@@ -277,7 +280,7 @@ def cexDeclare : List SEv :=
     { stmt := .declare 1, bf := true }, { stmt := .rollbackTo 1 }, { stmt := .query } ]
 
 theorem protocol_declare_fault_counterexample :
-    ((Server.runAll .pickle (Server.init ⟨1, 2, 3, 4⟩) cexDeclare).2.getLast?.map
+    ((Server.runAll (Server.init ⟨1, 2, 3, 4⟩) cexDeclare).2.getLast?.map
         (fun o => (o.outcome, o.against))) = some (.ok, some ⟨5, 6, 3, 4⟩) ∧
     (((PSpec.init ⟨1, 2, 3, 4⟩).run cexDeclare).2.getLast?.map
         (fun o => (o.cls, o.exposed))) = some (.ok, ⟨1, 2, 3, 4⟩) := by
@@ -289,25 +292,64 @@ theorem protocol_declare_fault_counterexample :
 def cexStart : List SEv := [ { stmt := .start, bf := true }, { stmt := .query } ]
 
 theorem protocol_start_fault_counterexample :
-    ((Server.runAll .pickle (Server.init ⟨1, 2, 3, 4⟩) cexStart).2.getLast?.map (·.outcome)) =
+    ((Server.runAll (Server.init ⟨1, 2, 3, 4⟩) cexStart).2.getLast?.map (·.outcome)) =
       some (.rejected .inTxError) ∧
     (((PSpec.init ⟨1, 2, 3, 4⟩).run cexStart).2.getLast?.map (·.cls)) = some .ok := by
   decide
 
-/-- REUSE_LAST_STATE_MARKER: the script `RELEASE SAVEPOINT 1; <query>` inside a block is
-    refused by `_make_query_unit` *after* `release_savepoint` has written to the state.  With
-    the pickle transport the server's copy is intact and `ROLLBACK TO 1` rescues the block;
-    with the marker the worker's `LAST_STATE` has lost the savepoint and the rescue is refused. -/
-theorem reuse_script_counterexample :
+/-! ## The compiler pool's REUSE_LAST_STATE_MARKER transport
+
+`Sys` adds one pool worker to the server: its `LAST_STATE` object (`wobj`) and the pool's
+`worker._last_pickled_state` (`wtok`, identity of a bytes object as a token).  The marker is sent
+when `wtok` is the bytes object the server holds; the worker then compiles on `wobj` in place.
+`PoolVer.fixed` is the pool as it is now (commit ae526a3: `_last_pickled_state = None` when a call
+raises, `LAST_STATE` assigned after pickling); `PoolVer.buggy` is the pool before it. -/
+
+/-- With the fixed pool, every `compile_in_tx` — marker or not — works on a state equal to the
+    bytes the server holds (`Sys.cin` = `_last_comp_state`), along any history. -/
+theorem reuse_fixed_compiles_on_callers_state (pl : Payload) (h : List SEv) :
+    let y := (Sys.runAll .fixed (Sys.init pl) h).1
+    y.cin = y.srv.last :=
+  Sys.cin_eq _ (Tx.Sys.runAll_fixed _ (Tx.Sys.init_coherent pl) h).2.2
+
+/-- … in particular after a rejected script (the one shape of statement that is rejected
+    *after* it has written to the state object): the server keeps its bytes and the next
+    statement is compiled on exactly those. -/
+theorem reuse_fixed_rejected_script (y : Sys) (ss : List Stmt) (y' : Sys) (o : SOut)
+    (hs : y.stepScript .fixed ss = some (y', o)) :
+    y'.srv.last = y.srv.last ∧ y'.cin = y'.srv.last := by
+  have := Tx.Sys.stepScript_fixed y ss y' o hs
+  exact ⟨this.1, this.2.2⟩
+
+/-- Hence the fixed pool is observationally the pickle transport … -/
+theorem reuse_fixed_is_pickle (pl : Payload) (h : List SEv) :
+    (Sys.runAll .fixed (Sys.init pl) h).1.srv = (Server.runAll (Server.init pl) h).1 ∧
+    (Sys.runAll .fixed (Sys.init pl) h).2 = (Server.runAll (Server.init pl) h).2 := by
+  have := Tx.Sys.runAll_fixed (Sys.init pl) (Tx.Sys.init_coherent pl) h
+  exact ⟨this.1, this.2.1⟩
+
+/-- … and the protocol refinement holds for it on the same envelope. -/
+theorem protocol_refines_reuse (pl : Payload) (h : List SEv)
+    (hcov : (PSpec.init pl).coversAll h = true) :
+    agreesAll (Sys.runAll .fixed (Sys.init pl) h).2 ((PSpec.init pl).run h).2 := by
+  rw [(reuse_fixed_is_pickle pl h).2]
+  exact (protocol_refines pl h hcov).1
+
+/-- The pool BEFORE the fix: the script `RELEASE SAVEPOINT 1; <query>` inside a block is refused
+    by `_make_query_unit` *after* `release_savepoint` has written to the state.  The old pool
+    kept `_last_pickled_state`, so the rescuing `ROLLBACK TO 1` went out with the marker, was
+    compiled on the worker's mutated `LAST_STATE` (savepoint gone) and was refused; with the
+    fixed pool it is compiled on the server's bytes and accepted. -/
+theorem reuse_script_counterexample_poolBuggy :
     let pre : List SEv := [{ stmt := .start }, { stmt := .declare 1 }]
     let script : List Stmt := [.release 1, .query]
-    (∀ tr, ((Server.runAll tr (Server.init ⟨1, 2, 3, 4⟩) pre).1.stepScript tr script).map
+    (∀ v, ((Sys.runAll v (Sys.init ⟨1, 2, 3, 4⟩) pre).1.stepScript v script).map
         (·.2.outcome) = some (.rejected .txInScript)) ∧
-    ((((Server.runAll .pickle (Server.init ⟨1, 2, 3, 4⟩) pre).1.stepScript .pickle script).map
-        (fun r => (r.1.step .pickle { stmt := .rollbackTo 1 }).2.outcome)) = some .ok) ∧
-    ((((Server.runAll .reuse (Server.init ⟨1, 2, 3, 4⟩) pre).1.stepScript .reuse script).map
-        (fun r => (r.1.step .reuse { stmt := .rollbackTo 1 }).2.outcome)) =
-          some (.rejected .inTxError)) := by
-  refine ⟨fun tr => by cases tr <;> decide, by decide, by decide⟩
+    ((((Sys.runAll .buggy (Sys.init ⟨1, 2, 3, 4⟩) pre).1.stepScript .buggy script).map
+        (fun r => (r.1.step .buggy { stmt := .rollbackTo 1 }).2.outcome)) =
+          some (.rejected .inTxError)) ∧
+    ((((Sys.runAll .fixed (Sys.init ⟨1, 2, 3, 4⟩) pre).1.stepScript .fixed script).map
+        (fun r => (r.1.step .fixed { stmt := .rollbackTo 1 }).2.outcome)) = some .ok) := by
+  refine ⟨fun v => by cases v <;> decide, by decide, by decide⟩
 
 end EdbVerif.C09
